@@ -18,6 +18,7 @@ from . import simrun
 hb = core.import_habutax()
 from habutax import form as hb_form          # noqa: E402
 from habutax import forms as hb_forms        # noqa: E402
+from habutax import fields as hb_fields      # noqa: E402
 from habutax import pdf_fields as hb_pdf_fields  # noqa: E402
 from habutax import values as hb_values      # noqa: E402
 
@@ -129,7 +130,7 @@ def relayout(solution_text, layout):
 def own_read(solution_text, classes_by_name):
     """Read a solution as the statement says it must be read: through the same year's line
     definitions.  -> (year, {form instance: Form obj}, {qualified line: typed value}, {qualified: Field})"""
-    cfg = configparser.ConfigParser(interpolation=None)
+    cfg = configparser.ConfigParser()      # as the filler reads it: the stock reader, % escapes and all
     cfg.read_string(solution_text)
     year = cfg.getint('habutax', 'tax_year') if cfg.has_option('habutax', 'tax_year') else None
     forms, vals, fields = {}, {}, {}
@@ -150,8 +151,22 @@ def own_read(solution_text, classes_by_name):
         for k in cfg[sec]:
             q = f'{sec}.{k}'
             if q in fields:
-                vals[q] = fields[q].from_string(cfg.get(sec, k))
+                vals[q] = own_from_string(fields[q], cfg.get(sec, k))
     return year, forms, vals, fields
+
+
+def own_from_string(field, text):
+    """What the text of a stored line means, written down here once more for the plain line kinds
+    (a solution holds the canonical text of each value), so that the reading the filler does is judged
+    against something other than itself; any other kind of line is read through its own definition."""
+    t = type(field)
+    if t is hb_fields.IntegerField and re.fullmatch(r'\s*[-+]?[0-9]+\s*', text):
+        return int(text)
+    if t is hb_fields.StringField:
+        return text
+    if t is hb_fields.BooleanField and text in ('True', 'False'):
+        return text == 'True'
+    return field.from_string(text)
 
 
 def expected_fill(forms, vals, fields, limits=None):
